@@ -489,6 +489,14 @@ package eval
 //@   requires [parser] (and (PARSER $p) (LEAFPARSERS $p))
 //@   dyncallees parser.parseInt parser.parseStr parser.parseConst parser.parseVariable parser.parseUnknownVariable parser.parseList.$1
 
+// operator lookup: a built-in name always denotes the built-in operator (a registered operator of the same name never
+// shadows it - constant folding relies on that: isStatelessOp folds with the built-in table); any other name denotes
+// the registered operator, if there is one.
+//@ func parser.getOperator C01 C02 C10
+//@   requires [parser] (and (not (= $p 0)) (not (= (fld $p conf) 0)))
+//@   ensures [builtin-first] (=> (mapin (global builtinOperators) $opName) (and $ret1 (= $ret0 (mapget (global builtinOperators) $opName))))
+//@   ensures [then-registered] (=> (not (mapin (global builtinOperators) $opName))
+//@        (and (= $ret1 (mapin (fld (fld $p conf) OperatorMap) $opName)) (=> $ret1 (= $ret0 (mapget (fld (fld $p conf) OperatorMap) $opName)))))
 // C01 — name resolution order: a bare token is tried as int literal, string literal, configured constant,
 // registered variable, undefined-mode variable and list literal IN THIS ORDER (a name that is both a constant and a
 // variable is the constant); buildLeafNode calls the parsers in list order.
